@@ -143,11 +143,27 @@ func (r *rewriter) stmt(s ast.Stmt) []ast.Stmt {
 	case *ast.BlockStmt:
 		r.block(x)
 	case *ast.IfStmt:
+		var pre ast.Stmt
 		if x.Init != nil {
 			if containsRecv(x.Init) {
-				die(r.fset, x, "receive in if-init")
+				// "if v, ok := <-ch; cond {" : the init statement runs first in any case, so the scheduling point goes in
+				// front of the whole if; the real receive stays where it is
+				var u *ast.UnaryExpr
+				switch in := x.Init.(type) {
+				case *ast.AssignStmt:
+					if len(in.Rhs) == 1 {
+						u, _ = isRecv(in.Rhs[0])
+					}
+				case *ast.ExprStmt:
+					u, _ = isRecv(in.X)
+				}
+				if u == nil || !pure(u.X) {
+					die(r.fset, x, "receive in if-init that is not a plain '<-ch' of an identifier/selector")
+				}
+				pre = r.schedCall("ChanRecv", u.X)
+			} else {
+				r.expr(x.Init)
 			}
-			r.expr(x.Init)
 		}
 		r.expr(x.Cond)
 		r.block(x.Body)
@@ -158,6 +174,9 @@ func (r *rewriter) stmt(s ast.Stmt) []ast.Stmt {
 			} else {
 				x.Else = &ast.BlockStmt{List: e}
 			}
+		}
+		if pre != nil {
+			return []ast.Stmt{pre, x}
 		}
 	case *ast.ForStmt:
 		if x.Init != nil {
